@@ -257,3 +257,418 @@ Proof.
   - apply iter_unescape_nil.
   - apply html_iter_roundtrip.
 Qed.
+
+(* ================================================================== *)
+(* 3. Attribute escaper                                                 *)
+Local Open Scope N_scope.
+
+(* ---- numeric references with symbolic digits ---- *)
+Lemma scan_num_hex_digits ds : forall acc nd v rest,
+  parse_hex_acc acc ds = Some v ->
+  scan_num true acc nd (ds ++ ";"%byte :: rest) = (v, (nd + length ds)%nat, ";"%byte :: rest).
+Proof.
+  induction ds as [|d ds IH]; intros acc nd v rest H.
+  - cbn [app parse_hex_acc length] in *. inversion H; subst.
+    cbn [scan_num]. change (digit_val true ";") with (@None N). cbv iota.
+    rewrite Nat.add_0_r. reflexivity.
+  - cbn [app parse_hex_acc length scan_num] in *. unfold digit_val.
+    destruct (hex_val d) as [x|]; [|discriminate].
+    rewrite (IH _ (S nd) _ rest H). f_equal. f_equal. lia.
+Qed.
+
+Lemma char_ref_hex_digits ds v rest :
+  ds <> [] -> parse_hex_acc 0 ds = Some v ->
+  char_ref ("#"%byte :: "x"%byte :: ds ++ ";"%byte :: rest) = Some (utf8_encode (ref_value v), rest).
+Proof.
+  intros Hne Hp. destruct ds as [|d ds']; [congruence|].
+  unfold char_ref. change (beqb "#" "#") with true. cbv iota.
+  unfold numeric_ref. cbn [app]. cbv zeta.
+  change (beqb "x" "x" || beqb "x" "X")%bool with true. cbv iota. cbn [tl].
+  change (d :: ds' ++ ";"%byte :: rest) with ((d :: ds') ++ ";"%byte :: rest).
+  rewrite (scan_num_hex_digits (d :: ds') 0 O v rest Hp).
+  change (beqb ";" ";") with true. cbv iota. cbn [tl length].
+  reflexivity.
+Qed.
+
+Lemma attr_ref_hex_digits ds v rest :
+  ds <> [] -> parse_hex_acc 0 ds = Some v ->
+  attr_ref ("#"%byte :: "x"%byte :: ds ++ ";"%byte :: rest) = Some rest.
+Proof.
+  intros Hne Hp. destruct ds as [|d ds']; [congruence|].
+  unfold attr_ref. cbn [strip_prefix].
+  change (beqb "#" "#") with true. change (beqb "x" "x") with true. cbv iota.
+  change (d :: ds' ++ ";"%byte :: rest) with ((d :: ds') ++ ";"%byte :: rest).
+  rewrite (scan_num_hex_digits (d :: ds') 0 O v rest Hp).
+  cbn [length Nat.add]. change (beqb ";" ";") with true. reflexivity.
+Qed.
+
+(* ---- the digits written by the escaper ---- *)
+Lemma parse_hex_acc_zeros k : parse_hex_acc 0 (repeat "0"%byte k) = Some 0.
+Proof.
+  induction k as [|k IH]; [reflexivity|].
+  cbn [repeat parse_hex_acc]. change (hex_val "0") with (Some 0). cbv iota.
+  change (0 * 16 + 0) with 0. exact IH.
+Qed.
+
+Lemma parse_hex_pad0 w r : r < 16777216 -> parse_hex_acc 0 (pad0 w (hex_lo r)) = Some r.
+Proof.
+  intros H. unfold pad0. rewrite parse_hex_acc_app, parse_hex_acc_zeros.
+  apply parse_hex_acc_hex_lo. exact H.
+Qed.
+
+Lemma hex_lo_nonempty r : hex_lo r <> [].
+Proof.
+  intros E. unfold hex_lo in E.
+  repeat match type of E with (if ?c then _ else _) = _ => destruct c end; discriminate.
+Qed.
+
+Lemma pad0_nonempty w r : pad0 w (hex_lo r) <> [].
+Proof.
+  unfold pad0. intros E. apply app_eq_nil in E. destruct E as [_ E].
+  exact (hex_lo_nonempty r E).
+Qed.
+
+Lemma sweep_lo_hex_is_hex : forall b, (if is_lo_hex b then is_hex b else true) = true.
+Proof. apply byte_forall. vm_compute. reflexivity. Qed.
+
+Lemma parse_hex_acc_total ds : forall acc,
+  forallb is_hex ds = true -> exists v, parse_hex_acc acc ds = Some v.
+Proof.
+  induction ds as [|d ds IH]; intros acc H.
+  - exists acc. reflexivity.
+  - cbn [forallb] in H. apply andb_true_iff in H. destruct H as [H1 H2].
+    cbn [parse_hex_acc]. unfold is_hex in H1.
+    destruct (hex_val d) as [x|]; [|discriminate]. apply IH. exact H2.
+Qed.
+
+Lemma forallb_repeat {A} (P : A -> bool) x k : P x = true -> forallb P (repeat x k) = true.
+Proof. intros H. induction k as [|k IH]; [reflexivity|]. cbn [repeat forallb]. rewrite H, IH. reflexivity. Qed.
+
+Lemma pad0_all_hex w r : forallb is_hex (pad0 w (hex_lo r)) = true.
+Proof.
+  unfold pad0. rewrite forallb_app. apply andb_true_iff. split.
+  - apply forallb_repeat. reflexivity.
+  - pose proof (hex_lo_all_lo_hex r) as H. rewrite forallb_forall in H.
+    apply forallb_forall. intros b Hb. specialize (H b Hb).
+    pose proof (sweep_lo_hex_is_hex b) as S. rewrite H in S. exact S.
+Qed.
+
+(* ---- the escaper's hex token ---- *)
+Lemma attr_hex_shape w r rest :
+  attr_hex w r ++ rest = "&"%byte :: "#"%byte :: "x"%byte :: pad0 w (hex_lo r) ++ ";"%byte :: rest.
+Proof. unfold attr_hex. rewrite <- !app_assoc. reflexivity. Qed.
+
+Lemma unescape_attr_hex w r rest :
+  r < 16777216 ->
+  html_unescape (attr_hex w r ++ rest) = utf8_encode (ref_value r) ++ html_unescape rest.
+Proof.
+  intros H. rewrite attr_hex_shape, html_unescape_cons.
+  change (beqb "&" "&") with true. cbv iota.
+  rewrite (char_ref_hex_digits _ r rest (pad0_nonempty w r) (parse_hex_pad0 w r H)).
+  reflexivity.
+Qed.
+
+Lemma alphabet_attr_hex w r rest :
+  attr_alphabet (attr_hex w r ++ rest) = attr_alphabet rest.
+Proof.
+  rewrite attr_hex_shape, attr_alphabet_cons.
+  change (beqb "&" "&") with true. cbv iota.
+  destruct (parse_hex_acc_total _ 0 (pad0_all_hex w r)) as [v Hv].
+  rewrite (attr_ref_hex_digits _ v rest (pad0_nonempty w r) Hv).
+  reflexivity.
+Qed.
+
+(* ---- closed tokens ---- *)
+Lemma char_ref_fffd rest :
+  char_ref (["#"; "x"; "F"; "F"; "F"; "D"; ";"]%byte ++ rest) = Some (utf8_encode 65533, rest).
+Proof. vm_compute. reflexivity. Qed.
+
+Lemma unescape_ref_fffd rest :
+  html_unescape (ref_fffd ++ rest) = utf8_encode 65533 ++ html_unescape rest.
+Proof. exact (html_unescape_ref _ _ _ (char_ref_fffd rest)). Qed.
+
+Lemma attr_ref_amp rest : attr_ref (["a"; "m"; "p"; ";"]%byte ++ rest) = Some rest.
+Proof. reflexivity. Qed.
+Lemma attr_ref_lt rest : attr_ref (["l"; "t"; ";"]%byte ++ rest) = Some rest.
+Proof. reflexivity. Qed.
+Lemma attr_ref_gt rest : attr_ref (["g"; "t"; ";"]%byte ++ rest) = Some rest.
+Proof. reflexivity. Qed.
+Lemma attr_ref_quot rest : attr_ref (["q"; "u"; "o"; "t"; ";"]%byte ++ rest) = Some rest.
+Proof. reflexivity. Qed.
+Lemma attr_ref_fffd rest : attr_ref (["#"; "x"; "F"; "F"; "F"; "D"; ";"]%byte ++ rest) = Some rest.
+Proof. vm_compute. reflexivity. Qed.
+
+(* ---- rune classes ---- *)
+Lemma rune_len_1 r : (rune_len r =? 1) = (r <? 128).
+Proof.
+  unfold rune_len. destruct (r <? 128); [reflexivity|].
+  destruct (r <? 2048); [reflexivity|]. destruct (r <? 65536); reflexivity.
+Qed.
+
+Lemma attr_norm_id r : attr_ctrl r = false -> attr_norm r = r.
+Proof.
+  unfold attr_ctrl, attr_norm, btw. intros H.
+  match goal with |- (if ?c then _ else _) = _ => destruct c eqn:E end; [lia|reflexivity].
+Qed.
+
+Lemma attr_norm_ctrl r : attr_ctrl r = true -> attr_norm r = 65533.
+Proof.
+  unfold attr_ctrl, attr_norm, btw. intros H.
+  match goal with |- (if ?c then _ else _) = _ => destruct c eqn:E end; [reflexivity|lia].
+Qed.
+
+Lemma ref_value_id r :
+  is_scalar r = true -> r <> 0 -> (r < 128 \/ 160 <= r) -> ref_value r = r.
+Proof.
+  unfold is_scalar, ref_value. intros Hs H0 Hr.
+  rewrite N.mod_small by lia.
+  destruct (2147483648 <=? r) eqn:E1; [lia|].
+  destruct ((128 <=? r) && (r <=? 159))%bool eqn:E2; [lia|].
+  match goal with |- (if ?c then _ else _) = _ => destruct c eqn:E3 end; [lia|reflexivity].
+Qed.
+
+Lemma sweep_attr_plain :
+  forall b, (if attr_plain (b2n b) then negb (beqb b "&") && attr_safe_char b else true)%bool = true.
+Proof. apply byte_forall. vm_compute. reflexivity. Qed.
+
+Lemma attr_plain_small r : attr_plain r = true -> r < 128 /\ attr_ctrl r = false.
+Proof. unfold attr_plain, attr_ctrl, btw. intros H. split; lia. Qed.
+
+Lemma utf8_encode_ascii r : r < 128 -> utf8_encode r = [n2b r].
+Proof. intros H. unfold utf8_encode. replace (r <? 128) with true by lia. reflexivity. Qed.
+
+(* ---- token lemmas ---- *)
+Lemma unescape_attr_tok r rest :
+  is_scalar r = true ->
+  html_unescape (attr_tok r ++ rest) = utf8_encode (attr_norm r) ++ html_unescape rest.
+Proof.
+  intros Hs. unfold attr_tok.
+  destruct (r =? 38) eqn:E1; [apply N.eqb_eq in E1; subst r; apply unescape_ref_amp|].
+  destruct (r =? 60) eqn:E2; [apply N.eqb_eq in E2; subst r; apply unescape_ref_lt|].
+  destruct (r =? 62) eqn:E3; [apply N.eqb_eq in E3; subst r; apply unescape_ref_gt|].
+  destruct (r =? 34) eqn:E4; [apply N.eqb_eq in E4; subst r; apply unescape_ref_quot|].
+  destruct (attr_plain r) eqn:Ep.
+  { destruct (attr_plain_small r Ep) as [Hlt Hc].
+    rewrite (attr_norm_id r Hc), (utf8_encode_ascii r Hlt).
+    pose proof (sweep_attr_plain (n2b r)) as S.
+    rewrite b2n_n2b, Ep in S by lia.
+    apply andb_true_iff in S. destruct S as [S _]. apply negb_true_iff in S.
+    cbn [app]. apply html_unescape_raw. exact S. }
+  destruct (attr_ctrl r) eqn:Ec.
+  { rewrite (attr_norm_ctrl r Ec). apply unescape_ref_fffd. }
+  rewrite (attr_norm_id r Ec).
+  assert (Hb : r < 16777216) by (unfold is_scalar in Hs; lia).
+  assert (Hv : ref_value r = r).
+  { apply ref_value_id; [exact Hs| |]; unfold attr_ctrl, btw in Ec; lia. }
+  rewrite rune_len_1.
+  destruct (r <? 128); rewrite unescape_attr_hex by exact Hb; rewrite Hv; reflexivity.
+Qed.
+
+Theorem attr_roundtrip : forall rs,
+  forallb is_scalar rs = true ->
+  html_unescape (attr_escape rs) = utf8_encode_all (map attr_norm rs).
+Proof.
+  induction rs as [|r rs IH]; intros H; [reflexivity|].
+  cbn [forallb] in H. apply andb_true_iff in H. destruct H as [Hr Hrs].
+  unfold attr_escape, utf8_encode_all in *. cbn [flat_map map].
+  rewrite unescape_attr_tok by exact Hr. rewrite IH by exact Hrs. reflexivity.
+Qed.
+
+Lemma alphabet_attr_tok r rest :
+  attr_alphabet (attr_tok r ++ rest) = attr_alphabet rest.
+Proof.
+  unfold attr_tok.
+  destruct (r =? 38); [exact (attr_alphabet_ref _ _ (attr_ref_amp rest))|].
+  destruct (r =? 60); [exact (attr_alphabet_ref _ _ (attr_ref_lt rest))|].
+  destruct (r =? 62); [exact (attr_alphabet_ref _ _ (attr_ref_gt rest))|].
+  destruct (r =? 34); [exact (attr_alphabet_ref _ _ (attr_ref_quot rest))|].
+  destruct (attr_plain r) eqn:Ep.
+  { destruct (attr_plain_small r Ep) as [Hlt _].
+    pose proof (sweep_attr_plain (n2b r)) as S.
+    rewrite b2n_n2b, Ep in S by lia.
+    apply andb_true_iff in S. destruct S as [S1 S2]. apply negb_true_iff in S1.
+    cbn [app]. rewrite attr_alphabet_cons, S1, S2. reflexivity. }
+  destruct (attr_ctrl r); [exact (attr_alphabet_ref _ _ (attr_ref_fffd rest))|].
+  destruct (rune_len r =? 1); apply alphabet_attr_hex.
+Qed.
+
+Theorem attr_alphabet_ok : forall rs, attr_alphabet (attr_escape rs) = true.
+Proof.
+  induction rs as [|r rs IH]; [reflexivity|].
+  unfold attr_escape in *. cbn [flat_map]. rewrite alphabet_attr_tok. exact IH.
+Qed.
+
+(* ================================================================== *)
+(* 4. From bytes: the rune sequence Go delivers consists of scalar values *)
+
+Lemma utf8_decode_scalar_n : forall n s,
+  (length s <= n)%nat -> forallb is_scalar (utf8_decode s) = true.
+Proof.
+  induction n as [|n IH]; intros s Hl.
+  - destruct s; [reflexivity|cbn [length] in Hl; lia].
+  - destruct s as [|b0 t0]; [reflexivity|].
+    cbn [length] in Hl.
+    assert (IH0 : forallb is_scalar (utf8_decode t0) = true) by (apply IH; lia).
+    assert (ERR : forallb is_scalar (rune_error :: utf8_decode t0) = true)
+      by (cbn [forallb]; rewrite IH0; reflexivity).
+    pose proof (b2n_lt b0) as B0.
+    cbn [utf8_decode].
+    destruct (b2n b0 <? 128) eqn:H1.
+    { cbn [forallb]. rewrite IH0. apply andb_true_iff. split; [|reflexivity].
+      unfold is_scalar. lia. }
+    destruct (btw 194 223 (b2n b0)) eqn:H2.
+    { destruct t0 as [|b1 t1]; [reflexivity|].
+      destruct (btw 128 191 (b2n b1)) eqn:H3; [|exact ERR].
+      cbn [forallb]. rewrite (IH t1) by (cbn [length] in Hl; lia).
+      apply andb_true_iff. split; [|reflexivity].
+      unfold btw, is_scalar in *. lia. }
+    destruct (btw 224 239 (b2n b0)) eqn:H3.
+    { destruct t0 as [|b1 [|b2 t2]]; try exact ERR.
+      match goal with |- forallb _ (if ?c then _ else _) = _ => destruct c eqn:H4 end; [|exact ERR].
+      cbn [forallb]. rewrite (IH t2) by (cbn [length] in Hl; lia).
+      apply andb_true_iff. split; [|reflexivity].
+      pose proof (b2n_lt b1) as B1. pose proof (b2n_lt b2) as B2.
+      destruct (b2n b0 =? 224) eqn:H5; destruct (b2n b0 =? 237) eqn:H6;
+        unfold btw, is_scalar in *; lia. }
+    destruct (btw 240 244 (b2n b0)) eqn:H4.
+    { destruct t0 as [|b1 [|b2 [|b3 t3]]]; try exact ERR.
+      match goal with |- forallb _ (if ?c then _ else _) = _ => destruct c eqn:H5 end; [|exact ERR].
+      cbn [forallb]. rewrite (IH t3) by (cbn [length] in Hl; lia).
+      apply andb_true_iff. split; [|reflexivity].
+      pose proof (b2n_lt b1) as B1. pose proof (b2n_lt b2) as B2. pose proof (b2n_lt b3) as B3.
+      destruct (b2n b0 =? 240) eqn:H6; destruct (b2n b0 =? 244) eqn:H7;
+        unfold btw, is_scalar in *; lia. }
+    exact ERR.
+Qed.
+
+Theorem utf8_decode_scalar : forall s, forallb is_scalar (utf8_decode s) = true.
+Proof. intros s. apply (utf8_decode_scalar_n (length s)). lia. Qed.
+
+Theorem attr_bytes_roundtrip : forall s,
+  html_unescape (attr_escape_bytes s) = utf8_encode_all (map attr_norm (utf8_decode s)).
+Proof. intros s. unfold attr_escape_bytes. apply attr_roundtrip. apply utf8_decode_scalar. Qed.
+
+Theorem attr_bytes_alphabet : forall s, attr_alphabet (attr_escape_bytes s) = true.
+Proof. intros s. apply attr_alphabet_ok. Qed.
+
+(* valid UTF-8 without the replaced control characters comes back unchanged *)
+Lemma map_attr_norm_id rs :
+  forallb (fun r => attr_norm r =? r) rs = true -> map attr_norm rs = rs.
+Proof.
+  induction rs as [|r rs IH]; intros H; [reflexivity|].
+  cbn [forallb] in H. apply andb_true_iff in H. destruct H as [H1 H2].
+  cbn [map]. apply N.eqb_eq in H1. rewrite H1, IH by exact H2. reflexivity.
+Qed.
+
+Theorem attr_bytes_clean : forall s,
+  valid_utf8 s = true ->
+  forallb (fun r => attr_norm r =? r) (utf8_decode s) = true ->
+  html_unescape (attr_escape_bytes s) = s.
+Proof.
+  intros s Hv Hc. rewrite attr_bytes_roundtrip, map_attr_norm_id by exact Hc.
+  unfold valid_utf8 in Hv. apply bytes_eqb_eq in Hv. exact Hv.
+Qed.
+
+(* ================================================================== *)
+(* 5. Repeated attribute escaping (aa=, aaa= ...): the output of a pass is printable
+      ASCII, which the next pass and its unescaping carry through unchanged *)
+
+Definition printable (b : byte) : bool := in_range 32 126 b.
+
+Lemma printable_decode t : forallb printable t = true -> utf8_decode t = map b2n t.
+Proof.
+  induction t as [|a t IH]; intros H; [reflexivity|].
+  cbn [forallb] in H. apply andb_true_iff in H. destruct H as [H1 H2].
+  cbn [utf8_decode map]. unfold printable, in_range in H1.
+  replace (b2n a <? 128) with true by lia. rewrite IH by exact H2. reflexivity.
+Qed.
+
+Lemma printable_norm_encode t :
+  forallb printable t = true -> utf8_encode_all (map attr_norm (map b2n t)) = t.
+Proof.
+  induction t as [|a t IH]; intros H; [reflexivity|].
+  cbn [forallb] in H. apply andb_true_iff in H. destruct H as [H1 H2].
+  unfold utf8_encode_all in *. cbn [map flat_map]. rewrite IH by exact H2.
+  unfold printable, in_range in H1.
+  rewrite attr_norm_id by (unfold attr_ctrl, btw; lia).
+  rewrite utf8_encode_ascii by lia. rewrite n2b_b2n. reflexivity.
+Qed.
+
+Lemma printable_attr_roundtrip t :
+  forallb printable t = true -> html_unescape (attr_escape_bytes t) = t.
+Proof.
+  intros H. rewrite attr_bytes_roundtrip, printable_decode by exact H.
+  apply printable_norm_encode. exact H.
+Qed.
+
+Lemma sweep_plain_printable : forall b, (if attr_plain (b2n b) then printable b else true) = true.
+Proof. apply byte_forall. vm_compute. reflexivity. Qed.
+
+Lemma sweep_lo_hex_printable : forall b, (if is_lo_hex b then printable b else true) = true.
+Proof. apply byte_forall. vm_compute. reflexivity. Qed.
+
+Lemma attr_hex_printable w r : forallb printable (attr_hex w r) = true.
+Proof.
+  unfold attr_hex, pad0. rewrite !forallb_app.
+  rewrite forallb_repeat by reflexivity.
+  assert (H : forallb printable (hex_lo r) = true).
+  { pose proof (hex_lo_all_lo_hex r) as H. rewrite forallb_forall in H.
+    apply forallb_forall. intros b Hb. specialize (H b Hb).
+    pose proof (sweep_lo_hex_printable b) as S. rewrite H in S. exact S. }
+  rewrite H. reflexivity.
+Qed.
+
+Lemma attr_tok_printable r : forallb printable (attr_tok r) = true.
+Proof.
+  unfold attr_tok.
+  destruct (r =? 38); [reflexivity|].
+  destruct (r =? 60); [reflexivity|].
+  destruct (r =? 62); [reflexivity|].
+  destruct (r =? 34); [reflexivity|].
+  destruct (attr_plain r) eqn:Ep.
+  { destruct (attr_plain_small r Ep) as [Hlt _].
+    pose proof (sweep_plain_printable (n2b r)) as S.
+    rewrite b2n_n2b, Ep in S by lia. cbn [forallb]. rewrite S. reflexivity. }
+  destruct (attr_ctrl r); [reflexivity|].
+  destruct (rune_len r =? 1); apply attr_hex_printable.
+Qed.
+
+Lemma attr_escape_printable rs : forallb printable (attr_escape rs) = true.
+Proof.
+  induction rs as [|r rs IH]; [reflexivity|].
+  unfold attr_escape in *. cbn [flat_map]. rewrite forallb_app, attr_tok_printable, IH. reflexivity.
+Qed.
+
+Lemma attr_iter_printable n : forall t,
+  forallb printable t = true ->
+  Nat.iter n html_unescape (repeat_app attr_escape_bytes n t) = t.
+Proof.
+  induction n as [|n IH]; intros t H; [reflexivity|].
+  cbn [repeat_app].
+  change (html_unescape (Nat.iter n html_unescape (repeat_app attr_escape_bytes n (attr_escape_bytes t))) = t).
+  rewrite IH by apply attr_escape_printable.
+  apply printable_attr_roundtrip. exact H.
+Qed.
+
+Theorem attr_iter_roundtrip : forall n s,
+  Nat.iter (S n) html_unescape (repeat_app attr_escape_bytes (S n) s)
+  = utf8_encode_all (map attr_norm (utf8_decode s)).
+Proof.
+  intros n s. cbn [repeat_app].
+  change (html_unescape (Nat.iter n html_unescape (repeat_app attr_escape_bytes n (attr_escape_bytes s)))
+          = utf8_encode_all (map attr_norm (utf8_decode s))).
+  rewrite attr_iter_printable by apply attr_escape_printable.
+  apply attr_bytes_roundtrip.
+Qed.
+
+Theorem attr_iter_alphabet : forall n s, attr_alphabet (repeat_app attr_escape_bytes (S n) s) = true.
+Proof. intros. rewrite repeat_app_S. apply attr_bytes_alphabet. Qed.
+
+(* the modifier as rendered, for a positive repeat count *)
+Theorem mod_attr_roundtrip : forall itr s, (0 < itr)%Z ->
+  Nat.iter (Z.to_nat itr) html_unescape (mod_attr_escape itr s)
+  = utf8_encode_all (map attr_norm (utf8_decode s)).
+Proof.
+  intros itr s H. unfold mod_attr_escape.
+  destruct (Z.to_nat itr) as [|n] eqn:E; [lia|]. apply attr_iter_roundtrip.
+Qed.
